@@ -48,6 +48,7 @@ func (c03) Thresholds(tier string) map[string]int64 {
 		"typed-slot-checks":           20000,
 		"compound-on-absent-variable": 200,
 		"restore-in-mid-history":      300,
+		"declare-from-function-call":  300,
 	}
 	for _, op := range assignOps {
 		for _, cur := range curKinds {
@@ -160,6 +161,14 @@ func (p c03) Run(c *core.Ctx) {
 							st.X = hast.Var(o)
 						}
 					}
+				} else if r.Chance(1, 4) {
+					// declared from a function call: a logged probe (evaluated exactly once) or the
+					// side-effecting bump()
+					st.X = hast.Call("p", hast.Num(strconv.Itoa(next())), litOf(r, as))
+					if as == hast.TNum && r.Bool() {
+						st.X = hast.Call("bump")
+					}
+					c.Feature("declare-from-function-call")
 				} else {
 					st.X = litOf(r, as)
 				}
@@ -438,6 +447,17 @@ func (p c03) table(c *core.Ctx) {
 			}
 			c.Feature(row)
 			c.Nontrivial(row, fmt.Sprint(useDef))
+		}
+	}
+	// rows in which the assigned value equals the current one (a write that "changes nothing" for =,
+	// but not for the compound operators)
+	for _, op := range assignOps {
+		run("row:same-value:"+op+":number", &hast.Stmt{K: hast.SSet, Var: "v", Op: op, X: hast.Num("4")}, map[string]model.Val{"v": model.N(4)})
+		run("row:same-value:"+op+":string", &hast.Stmt{K: hast.SSet, Var: "v", Op: op, X: hast.Str("new")}, map[string]model.Val{"v": model.S("new")})
+		run("row:same-value:"+op+":boolean", &hast.Stmt{K: hast.SSet, Var: "v", Op: op, X: hast.Bool(false)}, map[string]model.Val{"v": model.B(false)})
+		run("row:same-value:"+op+":self", &hast.Stmt{K: hast.SSet, Var: "v", Op: op, X: hast.Var("v")}, map[string]model.Val{"v": model.N(3)})
+		if c.Failed() {
+			return
 		}
 	}
 	for _, ck := range kinds {
